@@ -83,6 +83,7 @@ class State:
         self.guards  = list()      # short-circuit guards during expression eval
         self.old     = None        # entry snapshot: dict name -> Val
         self.trace   = list()      # branch decisions (for reports)
+        self.rebound = set()       # parameters re-assigned (no longer the caller's object)
         self.heads   = dict()      # loop ordinal -> env snapshot at loop head
         self.qvars   = dict()      # quantifier-bound variables in scope
 
@@ -91,6 +92,7 @@ class State:
         s.pc, s.env, s.bound = list(self.pc), dict(self.env), dict(self.bound)
         s.guards, s.old, s.trace = list(self.guards), self.old, list(self.trace)
         s.heads, s.qvars = dict(self.heads), dict(self.qvars)
+        s.rebound = set(self.rebound)
         return s
 
     def assume(self, c):
@@ -788,7 +790,14 @@ class Executor:
             z3.Select(ty.arr(out.term), i) == z3.Select(ty.arr(a.term), i))))
         self.axioms.append(z3.ForAll([i], z3.Implies(z3.And(0 <= i, i < lb),
             z3.Select(ty.arr(out.term), i + la) ==
-            z3.Select(ty.arr(b.term), i))))
+            z3.Select(ty.arr(b.term), i)),
+            patterns=[z3.Select(ty.arr(b.term), i)]))
+        self.axioms.append(z3.ForAll([i], z3.Implies(z3.And(la <= i, i < la + lb),
+            z3.Select(ty.arr(out.term), i) ==
+            z3.Select(ty.arr(b.term), i - la)),
+            patterns=[z3.Select(ty.arr(out.term), i)]))
+        self.concats = getattr(self, 'concats', [])
+        self.concats.append((out, a, b))
         return out
 
     # strings are identifiers: built strings are uninterpreted functions of
@@ -1232,6 +1241,13 @@ class Executor:
     def st_Global(self, node, st):
         return [('next', st, None)]
 
+    def st_ImportFrom(self, node, st):
+        # function-local import of names resolved through the spec registry
+        return [('next', st, None)]
+
+    def st_Import(self, node, st):
+        return [('next', st, None)]
+
     def st_Expr(self, node, st):
         self.ev(node.value, st)
         return [('next', st, None)]
@@ -1262,6 +1278,18 @@ class Executor:
         return isinstance(t, (TList, TRec, TMap, TSet))
 
     def assign(self, tgt, val, st, alias=None):
+        if isinstance(tgt, ast.Name) and tgt.id in self.spec.get('params', {}) \
+           and tgt.id not in st.rebound and not self.specmode:
+            # the parameter name is re-bound: from here on it is a local.  The
+            # caller's object must be unchanged up to this point (frame).
+            cur, oldv = st.env.get(tgt.id), (st.old or {}).get(tgt.id)
+            if tgt.id not in self.spec.get('modifies', []) and oldv is not None \
+               and isinstance(cur, Val) and self.is_mutable(oldv) \
+               and not isinstance(cur, (PyTuple, PyDict)) \
+               and cur.term is not None and not cur.term.eq(oldv.term):
+                self.oblige(st, 'frame:%s-unchanged@rebind-L%s'
+                            % (tgt.id, self.cur_line), eq(cur, oldv), 'frame')
+            st.rebound.add(tgt.id)
         if isinstance(tgt, ast.Name):
             if alias is not None and alias.root != tgt.id:
                 st.env[tgt.id] = alias
@@ -1527,6 +1555,7 @@ class Executor:
         s.old   = a.old
         s.trace = a.trace[:]
         s.heads = dict(a.heads)
+        s.rebound = a.rebound | b.rebound
         return s
 
     def merge_val(self, c, va, vb):
